@@ -80,11 +80,7 @@ theorem stepAny_good (cfg : Cfg) {rec : Pred V → R V} (hrec : GoodRec rec) {q 
     · rw [ret_some h2]; good_simp
   · rw [ret_some h2]; good_simp
   · rw [ret_some h2]; good_simp
-  · obtain ⟨o2, t3, t4, h3, h4⟩ := bindR_some h2
-    have g2 := hrec _ _ _ h3
-    rw [ret_some h4]
-    have g3 := good_trans g2 (show Good _ (.not _) from ⟨fun a h => by simpa [Pred.names] using h, fun h => by simpa [Pred.isProp] using h⟩)
-    good_simp
+  · rw [ret_some h2]; good_simp
   · rw [ret_some h2]; good_simp
 
 theorem notPost_good (o : Pred V) : Good (notPost o) (.not o) := by
